@@ -337,6 +337,10 @@ func Build(id, tier string, seed int64) (*BehavCheck, error) {
 				return nil, nil, err
 			}
 			rv, kn, err := raceStress(id, tier, seed, ev)
+			gv = append(gv, runScenarios(id, seed, ev, map[string]func() string{
+				"async-prune-pin/index-on":  allScenarios["async-prune-pin/index-on"],
+				"async-prune-pin/index-off": allScenarios["async-prune-pin/index-off"],
+			})...)
 			return append(gv, rv...), kn, err
 		}
 		c.Rule = "schedule replay at the granularity of the verif yield hooks: for every SaveVersion / SaveChangeSet / DeleteVersionsTo step of Iavl.tla behaviours the writer runs in its own goroutine and is parked at save:before-commit (the batch may already have flushed index changes), save:committed (written, latest version not yet published) and between the per-version steps of a prune; at every park point reader calls (GetImmutable, Get, Has, GetWithIndex, GetByIndex, Iterate, Hash) on every committed version the running call does not delete are compared with that version's contents from the specification; in addition readers are parked between their fast-node read and the latest-version check while the writer runs the whole call; IavlConc.tla is model-checked for ReadCommitted, NoRace and PinHolds (all interleavings of the bounded instance); data races are judged by the Go race detector on a free-running stress (separate -race binary) in which the writer also deletes versions nobody reads, synchronously or through background pruning (AsyncPruningOption with SetCommitting/UnsetCommitting around commits), and every version the readers could still read is re-read after a restart; storage-gate schedules: a reader is stopped inside its j-th storage read (before the read, or after it with the answer held back; cold and warm caches) while the writer runs a whole commit or deletion, then the reader's answer and all later reads are compared - the schedule TLC finds when the fast-node lookup of IavlConc.tla is split; TLC must refute the as-found / split variants of IavlConc.tla (vacuity guard); exports: a second export of a pinned version is opened and closed twice without unpinning it"
